@@ -12,3 +12,5 @@ open Just.C12
 #print axioms tokenize_ok
 #print axioms tokenize_err
 #print axioms no_line_is_end_of_file
+#print axioms shown_name_identifies_file
+#print axioms shown_relative
